@@ -125,6 +125,10 @@ def axioms(ctx):
     _, _, sa = rd_cons('RD_Srv')
     ax.append(z3.ForAll([r], z3.Implies(cls_of(r) == sh.class_id('DNSService'),
                                         lower(C_server(r)) == sa[3](i_rdata(ident_of(r)))), patterns=[C_server(r)]))
+    # str.lower is idempotent (instantiated only where a doubly lowered term occurs)
+    from pyvc.types import Str as _Str
+    s_ = z3.Const('s!lw', _Str)
+    ax.append(z3.ForAll([s_], lower(lower(s_)) == lower(s_), patterns=[lower(lower(s_))]))
     # keys are lower-case (key = lower(name))
     ax.append(z3.ForAll([r], z3.Implies(z3.Or(*[cls_of(r) == i for i in rec_ids]),
                                         lower(i_key(ident_of(r))) == i_key(ident_of(r))), patterns=[ident_of(r)]))
